@@ -1,0 +1,33 @@
+//go:build verif
+
+package deps
+
+import "mltwist/pkg/model"
+
+// VerifDeps lists all dependency edges in between instructions of block b. Every
+// edge is a pair of original addresses of instructions where the first one has
+// to be executed before the second one. It is compiled only with the verif
+// build tag and is used by the external verification harness.
+func VerifDeps(b Block) [][2]model.Addr {
+	var edges [][2]model.Addr
+	for _, ins := range b.seq {
+		for dep := range ins.depsFwd {
+			edges = append(edges, [2]model.Addr{ins.origAddr, dep.origAddr})
+		}
+	}
+
+	return edges
+}
+
+// VerifDepsBack lists the same edges as VerifDeps, but collected from backward
+// dependency sets of instructions. Both lists have to describe the same relation.
+func VerifDepsBack(b Block) [][2]model.Addr {
+	var edges [][2]model.Addr
+	for _, ins := range b.seq {
+		for dep := range ins.depsBack {
+			edges = append(edges, [2]model.Addr{dep.origAddr, ins.origAddr})
+		}
+	}
+
+	return edges
+}
